@@ -731,6 +731,56 @@ def audit_corpus(tier, seed):
     return modules, expects
 
 
+def regex_without_unicode_probe(res):
+    """The application, not the macro, decides how its `regex` crate is built. With `regex` built without Unicode support a literal such as `^\\w+$`
+    (validated at expansion time by the macro's own, fully featured `regex`) cannot be compiled at run time. Whatever the generated code does then -
+    the pinned tree panics on first use - it must never hand out a value that does not match: a guard that cannot run must fail closed.
+    A stand-alone program (no harness crate in its graph: cargo would unify the `regex` features) prints one line per call."""
+    d = os.path.join(WORK, "c05-regexlite")
+    pats = [("W", "^\\\\w+$", ["abc", "a b", "", "é"]), ("D", "^\\\\d{2}$", ["12", "1a", "123"]), ("L", "^\\\\p{L}+$", ["ab", "a1"]), ("A", "^[a-c]+$", ["abc", "abd"])]
+    expect = {"W": [True, False, False, True], "D": [True, False, False], "L": [True, False], "A": [True, False]}
+    src = ["use nutype::nutype;"]
+    for (n, p, _) in pats:
+        src.append('#[nutype(validate(regex = "%s"), derive(Debug, TryFrom, FromStr))]\npub struct %s(String);' % (p, n))
+    src.append("fn show<T, E>(tag: &str, i: usize, how: &str, r: std::thread::Result<Result<T, E>>) { println!(\"CASE {tag} {i} {how} {}\", match r { Ok(Ok(_)) => \"OK\", Ok(Err(_)) => \"ERR\", Err(_) => \"PANIC\" }); }")
+    src.append("fn main() {\n    std::panic::set_hook(Box::new(|_| {}));")
+    for (n, p, inputs) in pats:
+        for i, x in enumerate(inputs):
+            lit = json.dumps(x, ensure_ascii=False)
+            src.append('    show("%s", %d, "try_new", std::panic::catch_unwind(|| %s::try_new(%s)));' % (n, i, n, lit))
+            src.append('    show("%s", %d, "try_from", std::panic::catch_unwind(|| <%s as TryFrom<String>>::try_from(String::from(%s))));' % (n, i, n, lit))
+            src.append('    show("%s", %d, "from_str", std::panic::catch_unwind(|| %s.parse::<%s>()));' % (n, i, lit, n))
+    src.append("}")
+    write_if_changed(os.path.join(d, "src", "main.rs"), "\n".join(src) + "\n")
+    write_if_changed(os.path.join(d, "Cargo.toml"), '[package]\nname = "regexlite"\nversion = "0.1.0"\nedition = "2021"\n\n[dependencies]\nnutype = { path = "%s/nutype", features = ["regex"] }\n'
+                     'regex = { version = "1", default-features = false, features = ["std"] }\n\n[workspace]\nresolver = "2"\n\n[profile.dev]\ndebug = 0\n' % REPO)
+    if not os.path.exists(os.path.join(d, "Cargo.lock")):
+        import shutil
+        shutil.copy(os.path.join(REPO, "Cargo.lock"), os.path.join(d, "Cargo.lock"))
+    env = dict(ENV); env["CARGO_TARGET_DIR"] = os.path.join(WORK, "target-regexlite")
+    rc, out, err, dt = run(["cargo", "run", "--offline", "-q"], cwd=d, env=env, timeout=900)
+    lines = [l.split() for l in out.splitlines() if l.startswith("CASE ")]
+    if rc != 0 or not lines:
+        res.inconclusive.append("regex-without-unicode probe did not run: rc=%s %s" % (rc, err[-600:]))
+        return
+    seen = {"OK": 0, "ERR": 0, "PANIC": 0}
+    for (_, tag, i, how, verdict_) in lines:
+        res.evaluations += 1
+        seen[verdict_] += 1
+        should_match = expect[tag][int(i)]
+        pat = next(p for (n, p, _) in pats if n == tag)
+        if verdict_ == "OK" and not should_match:
+            v = {"decl": "regexlite:" + tag, "signature": "regex-guard-fails-open-without-unicode-support:%s" % how, "input": next(x for (n, p, xs) in pats if n == tag for j, x in enumerate(xs) if j == int(i)),
+                 "observed": "Ok(value that does not match %s)" % pat.replace("\\\\", "\\"), "expected": "Err or panic", "detail": "application `regex` built with default-features = false", "count": 1}
+            v["replay"] = write_witness(res, v, None, "\n".join(src), kind="program")
+            res.violations.append(v)
+        if verdict_ == "ERR" and should_match and tag == "A":
+            res.inconclusive.append("regex-without-unicode probe: the ASCII control pattern rejects a matching value")
+    res.hist.update({"regexlite:" + k: v for k, v in seen.items()})
+    res.classes.add("regexlite|" + "/".join(k for k, v in seen.items() if v))
+    res.guard("regex_without_unicode_calls", len(lines), 30)
+
+
 def check_c05(tier, seed):
     res = Result("C05", tier, seed)
     res.rule = ("(1) attack catalogue: 11 victim declarations (int/float/String/Vec/generic; no derives, every view trait, every trait; with/without validators; new_unchecked flag on/off) "
@@ -808,6 +858,7 @@ def check_c05(tier, seed):
             res.violations.append(v)
         if audited == 3:
             res.samples.append({"audited_module": m["module"], "impls": [(im["trait"], [f["name"] for f in im["fns"]]) for im in m["impls"]][:8]})
+    regex_without_unicode_probe(res)
     res.guard("expansion_modules_audited", audited, min(len(expects), 150))
     res.guard("expansion_modules_expected", len(expects), 150)
     res.hist["expansion-modules-audited"] = audited
@@ -1067,5 +1118,16 @@ def replay(path):
         return 0
     if kind == "generated-test":
         print("generated-test witness: program below; run `cargo test` on it with nutype from /repo\n" + (w.get("module_text") or ""))
+        return 0
+    if kind == "program":
+        # stand-alone probe programs are small and deterministic: re-run the probe and look for the same signature
+        res = Result(prop, w.get("tier", "quick"), w.get("seed", 0))
+        regex_without_unicode_probe(res)
+        hit = [v for v in res.violations if v["signature"] == w.get("signature") and v["input"] == w.get("input")]
+        if hit:
+            print("REPRODUCED signature=%s input=%s observed=%s" % (hit[0]["signature"], hit[0]["input"], hit[0]["observed"]))
+            print("VIOLATION property=%s replay=%s" % (prop, path))
+            return 1
+        print("not reproduced on the current tree")
         return 0
     return 2
